@@ -138,6 +138,10 @@ class Model:
         self.alt = None
         return getattr(self, "m_" + op["op"])(op)
 
+    def m_flag(self, op):
+        # the neighbor-caching flag is no part of the structure
+        return ("ret", bool(op["on"]))
+
     def m_mk_vertex(self, op):
         new = op["new"]
         d = self._new_vertex(new, op.get("cls", "Vertex"))
@@ -348,6 +352,19 @@ class Model:
             self.objs[v]["universes"].remove(u)
         if self.readmits(u, v):
             self._join(u, v)
+        return ("ret", None)
+
+    def m_exodus(self, op):
+        from egsim.ops import exodus_selection
+
+        u = op["u"]
+        for v in exodus_selection(list(self.objs[u]["members"]), op):
+            if op.get("side") == "v":
+                r = self.m_v_remove_uni({"u": u, "v": v})
+            else:
+                r = self.m_uni_remove({"u": u, "v": v})
+            if isinstance(r, Raises):
+                return r
         return ("ret", None)
 
     def m_v_remove_uni(self, op):
